@@ -34,6 +34,31 @@
 //    the documented "axial positions are always centred" of get_m (ProjDataInfoCylindrical.h:85-87) when no exception occurred.
 //  * the VectorWithOffset::grow assertion that fires when set_tof_mash_factor SHRINKS the TOF boundary tables is assertion-only
 //    (DESIGN.md 11.2, former C15-F1): exactly that call is repeated with assertions off.
+//
+// ALIASING clauses (section (iv) below).  clone() is documented as the "virtual copy-constructor" (ProjDataInfo.h:145), SSRB(ProjDataInfo&,..)
+// takes its input by const reference and ProjDataInfoSubsetByView takes a shared_ptr<const ProjDataInfo>: a copy and its original are
+// two objects, and nothing documents that a setter called on one of them (or a lazy table rebuilt by one of them) may change the
+// answers of the other.  The classes can nevertheless share state, because clone() is the implicit copy constructor and some members
+// are pointers: ProjDataInfo::scanner_ptr (shared_ptr<Scanner>), the shared_ptr<RingNumPairs> elements of
+// ProjDataInfoCylindrical::segment_axial_pos_to_ring_pair (the ring-pair lists of the Michelogram), and
+// ProjDataInfoSubsetByView::org_proj_data_info_sptr.  (The (view,tang)<->(det1,det2) tables, m_offset, ax_pos_num_offset,
+// ring_diff_to_segment_num and the TOF boundary tables are held by value.)  A history can therefore carry, besides the ops above:
+//    "keep": id   on a clone / shared_clone / non_tof_clone / ssrb op: the ORIGINAL (the object the op copies from) is kept alive
+//    "fork"       a side copy of the current object is made (clone, create_shared_clone, copy constructor of the concrete class,
+//                 copy assignment over another used object, create_non_tof_clone, ProjDataInfoSubsetByView of it) and kept
+//    "side"       a side copy B of the current object is made, optionally copied again (C, kept: the chain A -> B -> C), then B is
+//                 changed with one setter (never restored) and used
+//    "subset_side" a ProjDataInfoSubsetByView of the current object is made and used, CLONED, the clone is changed with one of the
+//                 setters the class overrides and used; the first subset is kept
+//    "recheck"    a kept object (or "cur", the current object) is compared on the whole API (diff_twin / diff_subset) with a fresh
+//                 twin of ITS OWN settings: a never used, never copied object on its own Scanner object, built from the source
+//                 parameters and the settings-changing ops that had been executed when the object was kept
+// Every kept object is re-checked again after the object under test got its final parameters and was used by all clauses of the
+// property (recheck_all), then the object under test is compared once more with its fresh twin (the re-checks of the kept objects
+// rebuild THEIR lazy tables), and the Scanner object of the history must still be the scanner it was constructed as.
+// Forks and side copies are only generated at points where the current object has no perturbation pending (a perturbed object may be
+// one that STIR rejects when it is used); re-checks of kept objects are generated anywhere, in particular while the current object is
+// perturbed and used.
 #pragma once
 #include "stir_gen.h"
 #include "stir/ProjDataInfoCylindrical.h"
@@ -47,6 +72,9 @@
 #include "stir/DetectionPositionPair.h"
 #include <cstring>
 #include <algorithm>
+#include <typeinfo>
+#include <map>
+#include <cstdlib>
 
 namespace vh {
 using namespace vf;
@@ -222,21 +250,358 @@ with_tof_tables_allowed_to_shrink(F f)
     }
 }
 
+// ---- copies of an object (every way the public interface offers) ----------------------------------------------------------------
+template <class T>
+inline bool
+try_copy_construct(shared_ptr<ProjDataInfo>& out, const ProjDataInfo& p)
+{
+  if (typeid(p) != typeid(T))
+    return false;
+  out.reset(new T(static_cast<const T&>(p)));
+  return true;
+}
+//! the (implicit, public) copy constructor of the concrete class
+inline shared_ptr<ProjDataInfo>
+copy_construct(const ProjDataInfo& p)
+{
+  shared_ptr<ProjDataInfo> out;
+  if (try_copy_construct<ProjDataInfoCylindricalNoArcCorr>(out, p) || try_copy_construct<ProjDataInfoCylindricalArcCorr>(out, p)
+      || try_copy_construct<ProjDataInfoBlocksOnCylindricalNoArcCorr>(out, p) || try_copy_construct<ProjDataInfoGenericNoArcCorr>(out, p)
+      || try_copy_construct<ProjDataInfoSubsetByView>(out, p))
+    return out;
+  return p.create_shared_clone();
+}
+template <class T>
+inline bool
+try_assign(ProjDataInfo& to, const ProjDataInfo& from)
+{
+  if (typeid(to) != typeid(T) || typeid(from) != typeid(T))
+    return false;
+  static_cast<T&>(to) = static_cast<const T&>(from);
+  return true;
+}
+//! the (implicit, public) copy assignment of the concrete class; false if the two objects are not of the same concrete class
+inline bool
+copy_assign(ProjDataInfo& to, const ProjDataInfo& from)
+{
+  return try_assign<ProjDataInfoCylindricalNoArcCorr>(to, from) || try_assign<ProjDataInfoCylindricalArcCorr>(to, from)
+         || try_assign<ProjDataInfoBlocksOnCylindricalNoArcCorr>(to, from) || try_assign<ProjDataInfoGenericNoArcCorr>(to, from);
+}
+
+struct DiffOpts
+{
+  int ax_stride = 1, view_stride = 1, tang_stride = 1, ring_stride = 1, det_stride = 1;
+  bool all_pairs = true; // get_bin_for_det_pos_pair on all detector pairs x (all_pairs ? strided ring pairs : 4 ring pairs) x all TOF indices
+  bool coords = true;    // get_s/get_m/get_tantheta/get_phi/get_LOR/get_bin (C12); C01 is about the detector-pair and ring-pair maps only
+};
+
+// ---- (iv) aliasing: objects that are kept while their copy / original is changed and used -----------------------------------------
+struct Kept
+{
+  std::string id;               //!< label in the Case
+  std::string how;              //!< how the object came to be kept (for the message)
+  std::size_t at = 0;           //!< number of ops of the history executed before; the twin has the settings of that prefix
+  shared_ptr<ProjDataInfo> obj; //!< the kept object (for subsets: the ProjDataInfoSubsetByView)
+  bool subset = false;
+  std::vector<int> views; //!< subsets: the original view numbers
+  bool non_tof = false;   //!< made by create_non_tof_clone: the twin is the non-TOF version of the prefix's settings
+  int rechecks = 0;
+};
+struct Alias
+{
+  json scanner_spec;   //!< every twin gets its own Scanner object built from this
+  json arc_bin_size;   //!< as for derive()
+  const json* hist = nullptr;
+  DiffOpts opts;       //!< what the re-checks at the end of the case compare
+  DiffOpts light;      //!< what the re-checks inside the history compare (the same functions on a coarser set of bins / detector pairs)
+  std::vector<Kept> kept;
+  std::vector<shared_ptr<ProjDataInfo>> held; //!< changed side copies that stay alive until the end of the case
+  std::map<std::string, int> tof_saved;       //!< TOF mashing factors remembered by perturbations without "f0"
+};
+
+//! the same comparison on every 3rd axial position / view / tangential position (odd strides: both parities are visited; the last
+//! index of a range is always included, see strided_list) and a coarser set of first detectors.  The ring-pair tables, the ring
+//! pair -> (segment, axial position) map, the ranges, operator== and the TOF tables are always compared completely.
+inline DiffOpts
+lighter(const DiffOpts& o)
+{
+  DiffOpts l = o;
+  l.ax_stride = 2 * o.ax_stride + 1;
+  l.view_stride = 2 * o.view_stride + 1;
+  l.tang_stride = 2 * o.tang_stride + 1;
+  l.det_stride = 3 * o.det_stride;
+  l.ring_stride = o.ring_stride + 1;
+  return l;
+}
+//! options of the aliasing re-checks for a differential with options o: scanners with at most 32 detectors per ring and 4 rings
+//! are compared as completely as the object under test; larger ones on coarser sets (end of the case: lighter, inside the history:
+//! lighter twice)
+inline void
+set_alias_opts(Alias& al, const DiffOpts& o, const Scanner& sc)
+{
+  const bool small = sc.get_num_detectors_per_ring() <= 32 && sc.get_num_rings() <= 4;
+  al.opts = small ? o : lighter(o);
+  al.light = small ? lighter(o) : lighter(lighter(o));
+}
+
+inline Result derive(shared_ptr<ProjDataInfo>& cur, const shared_ptr<Scanner>& sc, const json& hist, const json& final_trim, const json& arc_bin_size,
+                     Alias* al = nullptr);
+inline Result diff_twin(const ProjDataInfo& d, const ProjDataInfo& f, const DiffOpts& o);
+inline Result diff_subset(const ProjDataInfoSubsetByView& sub, const ProjDataInfo& f, const std::vector<int>& views, const DiffOpts& o);
+
+inline bool
+op_changes_settings(const std::string& what)
+{
+  return what == "ssrb" || what == "set_num_views" || what == "reduce_segment_range" || what == "set_num_tangential_poss" || what == "set_min_tang"
+         || what == "set_max_tang" || what == "set_tof_mash_factor" || what == "non_tof_clone" || what == "perturb" || what == "restore";
+}
+
+//! a fresh twin with the settings the current object of the history had after `upto` ops: its own Scanner object, the source
+//! parameters, then only the ops that change settings (no use, no copy): nothing of it was ever shared with another object
+inline shared_ptr<ProjDataInfo>
+build_twin(const Alias& al, std::size_t upto)
+{
+  json h;
+  h["src"] = (*al.hist)["src"];
+  h["ops"] = json::array();
+  const json& ops = (*al.hist)["ops"];
+  for (std::size_t i = 0; i < upto && i < ops.size(); ++i)
+    {
+      const std::string what = ops[i]["op"];
+      if (!op_changes_settings(what))
+        continue;
+      json o = ops[i];
+      o.erase("keep");
+      if (what == "perturb" || what == "restore")
+        o["use"] = 0;
+      h["ops"].push_back(o);
+    }
+  shared_ptr<Scanner> sc2 = vg::make_scanner(al.scanner_spec);
+  shared_ptr<ProjDataInfo> t;
+  const Result r = derive(t, sc2, h, json::object(), al.arc_bin_size, nullptr);
+  if (r.failed())
+    throw std::logic_error("harness: twin replay failed: " + r.msg);
+  return t;
+}
+
+inline Result
+recheck_kept(Alias& al, Kept& k, const std::string& when, bool light)
+{
+  const DiffOpts& o = light ? al.light : al.opts;
+  shared_ptr<ProjDataInfo> twin = build_twin(al, k.at);
+  if (k.non_tof)
+    twin = twin->create_non_tof_clone();
+  const Result r = k.subset ? diff_subset(dynamic_cast<const ProjDataInfoSubsetByView&>(*k.obj), *twin, k.views, o) : diff_twin(*k.obj, *twin, o);
+  ++k.rechecks;
+  stats().count("aliasing: re-checks of a kept object against a fresh twin of its own settings");
+  if (r.failed())
+    return Result::fail(cat("ALIASING: object '", k.id, "' (", k.how, ", kept when ", k.at, " ops of the history had been executed) no longer answers like a fresh twin of "
+                            "its own settings ", when, " :: ", r.msg));
+  return Result::pass();
+}
+
+//! all kept objects once more (call it after the object under test got its final parameters and was used by all clauses)
+inline Result
+recheck_all(Alias& al)
+{
+  for (Kept& k : al.kept)
+    {
+      const Result r = recheck_kept(al, k, "at the end of the case (after the object under test was used by all clauses)", false);
+      if (r.failed())
+        return r;
+    }
+  return Result::pass();
+}
+
+//! the Scanner object a history worked on must still be the scanner it was constructed as (no ProjDataInfo function documents
+//! that it changes the Scanner it was given)
+inline Result
+scanner_unchanged(const Scanner& used, const json& scanner_spec)
+{
+  shared_ptr<Scanner> ref = vg::make_scanner(scanner_spec);
+  VF_CHECK(used == *ref, "ALIASING: the Scanner object that the objects of the history share is no longer equal (operator==) to a fresh Scanner with the parameters it "
+                         "was constructed with\n now: ",
+           used.parameter_info(), "\n fresh: ", ref->parameter_info());
+  VF_CHECK(used.parameter_info() == ref->parameter_info(), "ALIASING: the Scanner object that the objects of the history share reports other parameters than a fresh Scanner "
+                                                           "with the parameters it was constructed with\n now: ",
+           used.parameter_info(), "\n fresh: ", ref->parameter_info());
+  VF_CHECK(used.get_ring_spacing() == ref->get_ring_spacing() && used.get_num_rings() == ref->get_num_rings()
+               && used.get_num_detectors_per_ring() == ref->get_num_detectors_per_ring() && used.get_inner_ring_radius() == ref->get_inner_ring_radius()
+               && used.get_average_depth_of_interaction() == ref->get_average_depth_of_interaction()
+               && used.get_intrinsic_azimuthal_tilt() == ref->get_intrinsic_azimuthal_tilt() && used.get_default_bin_size() == ref->get_default_bin_size()
+               && used.get_max_num_non_arccorrected_bins() == ref->get_max_num_non_arccorrected_bins(),
+           "ALIASING: a geometry parameter of the shared Scanner object changed");
+  return Result::pass();
+}
+
+//! uses a ProjDataInfoSubsetByView (coordinates, LOR, get_bin of a few bins of every segment)
+inline void
+use_subset(const ProjDataInfo& p)
+{
+  volatile float sink = 0;
+  for (int seg = p.get_min_segment_num(); seg <= p.get_max_segment_num(); ++seg)
+    for (int ax : { p.get_min_axial_pos_num(seg), (p.get_min_axial_pos_num(seg) + p.get_max_axial_pos_num(seg)) / 2, p.get_max_axial_pos_num(seg) })
+      {
+        if (ax < p.get_min_axial_pos_num(seg) || ax > p.get_max_axial_pos_num(seg))
+          continue;
+        const Bin b(seg, p.get_min_view_num(), ax, (p.get_min_tangential_pos_num() + p.get_max_tangential_pos_num()) / 2, 0, 1.f);
+        sink = p.get_m(b) + p.get_s(b) + p.get_phi(b) + p.get_tantheta(b) + p.get_sampling_in_m(b);
+        LORInAxialAndNoArcCorrSinogramCoordinates<float> lor;
+        p.get_LOR(lor, b);
+        LORAs2Points<float> lor2;
+        if (lor.get_intersections_with_cylinder(lor2, lor.radius()) == Succeeded::yes)
+          sink = p.get_bin(lor2, 0.).get_bin_value();
+      }
+  (void)sink;
+}
+
+//! one setter call: "perturb" (sgn=+1) sets another value of parameter op["par"], "restore" (sgn=-1) undoes exactly that change
+inline void
+apply_perturbation(ProjDataInfo& p, const Scanner& sc, const json& op, int sgn, std::map<std::string, int>& tof_saved)
+{
+  ProjDataInfoCylindrical* cyl = dynamic_cast<ProjDataInfoCylindrical*>(&p);
+  const bool is_generic = dynamic_cast<ProjDataInfoGeneric*>(&p) != nullptr;
+  const std::string par = op["par"];
+  const int seg = std::max(p.get_min_segment_num(), std::min(p.get_max_segment_num(), op.value("seg", 0)));
+  const int d = sgn * op.value("delta", 1);
+  if (par == "min_axial")
+    p.set_min_axial_pos_num(p.get_min_axial_pos_num(seg) + d, seg);
+  else if (par == "max_axial")
+    p.set_max_axial_pos_num(p.get_max_axial_pos_num(seg) + d, seg);
+  else if (par == "num_axial")
+    { // (resets min_axial_pos_num to 0 in every segment, which is what the constructors and SSRB produce)
+      VectorWithOffset<int> n(p.get_min_segment_num(), p.get_max_segment_num());
+      for (int s = n.get_min_index(); s <= n.get_max_index(); ++s)
+        n[s] = p.get_num_axial_poss(s) + (s == seg ? d : 0);
+      p.set_num_axial_poss_per_segment(n);
+    }
+  else if (par == "min_tang")
+    p.set_min_tangential_pos_num(p.get_min_tangential_pos_num() + d);
+  else if (par == "max_tang")
+    p.set_max_tangential_pos_num(p.get_max_tangential_pos_num() + d);
+  else if (par == "segs")
+    { // (side copies only, never restored) reduce_segment_range: "the new range has to be 'smaller' than the old one"
+      int lo = p.get_min_segment_num(), hi = p.get_max_segment_num();
+      if (hi - lo >= 1)
+        {
+          if (d > 0 || std::abs(d) == 2)
+            ++lo;
+          if ((d < 0 || std::abs(d) == 2) && hi > lo)
+            --hi;
+          p.reduce_segment_range(lo, hi);
+        }
+    }
+  else if (cyl && par == "min_ring_diff")
+    cyl->set_min_ring_difference(cyl->get_min_ring_difference(seg) + d, seg);
+  else if (cyl && par == "max_ring_diff")
+    cyl->set_max_ring_difference(cyl->get_max_ring_difference(seg) + d, seg);
+  else if (cyl && par == "ring_spacing")
+    { // factor 2^d: exactly invertible in float
+      cyl->set_ring_spacing(std::ldexp(cyl->ProjDataInfoCylindrical::get_ring_spacing(), d));
+    }
+  else if (cyl && par == "az_sampling" && !is_generic)
+    cyl->set_azimuthal_angle_sampling(std::ldexp(cyl->ProjDataInfoCylindrical::get_azimuthal_angle_sampling(), d));
+  else if (cyl && par == "az_offset" && !is_generic)
+    { // (+-0.25 rad, then the value the constructor documents is set again: float addition is not exactly invertible)
+      if (sgn > 0)
+        cyl->set_azimuthal_angle_offset(cyl->ProjDataInfoCylindrical::get_azimuthal_angle_offset() + 0.25F * d);
+      else
+        cyl->set_azimuthal_angle_offset(expected_azimuthal_offset(sc, p.get_num_views()));
+    }
+  else if (par == "tang_sampling")
+    {
+      if (auto a = dynamic_cast<ProjDataInfoCylindricalArcCorr*>(&p))
+        a->set_tangential_sampling(std::ldexp(a->get_tangential_sampling(), d));
+    }
+  else if (par == "tof_mash")
+    { // perturb: another legal factor ("f"), restore: the factor of before ("f0", or the one remembered by the perturbation)
+      const std::string key = op.value("slot", std::string("-"));
+      int f;
+      if (sgn > 0)
+        {
+          tof_saved[key] = p.get_tof_mash_factor();
+          f = op["f"].get<int>();
+        }
+      else
+        f = op.contains("f0") ? op["f0"].get<int>() : (tof_saved.count(key) ? tof_saved[key] : p.get_tof_mash_factor());
+      with_tof_tables_allowed_to_shrink([&]() { p.set_tof_mash_factor(f); });
+    }
+}
+
+inline shared_ptr<ProjDataInfo>
+make_copy(const shared_ptr<ProjDataInfo>& from, const std::string& how, const json& op, Alias& al)
+{
+  if (how == "shared_clone")
+    return from->create_shared_clone();
+  if (how == "copy")
+    return copy_construct(*from);
+  if (how == "non_tof_clone")
+    return from->create_non_tof_clone();
+  if (how == "assign" && op.contains("other"))
+    { // another object of the same class with (in general) other parameters on its own Scanner object is built and used, then
+      // overwritten by copy assignment
+      shared_ptr<ProjDataInfo> other;
+      try
+        {
+          other = vg::make_pdi(vg::make_scanner(al.scanner_spec), op["other"]);
+          warm(*other, 31);
+        }
+      catch (const std::exception&)
+        {
+          other.reset();
+        }
+      if (other && copy_assign(*other, *from))
+        return other;
+    }
+  return shared_ptr<ProjDataInfo>(from->clone());
+}
+
+inline std::vector<int>
+subset_views(const json& op, int num_views)
+{
+  const int ns = std::max(1, std::min(op.value("num_subsets", 1), num_views));
+  const int first = op.value("subset", 0) % ns;
+  std::vector<int> views;
+  for (int v = first; v < num_views; v += ns)
+    views.push_back(v);
+  return views;
+}
+
 // ---- (ii) the interpreter of histories ---------------------------------------------------------------------------------------
 // On return cur is the derived object.  STIR exceptions from the ops themselves propagate (the caller counts the case as a
 // FAILURE: gen_history only generates calls inside the documented domain); exceptions in the intermediate use of a perturbed
-// object are tolerated.
+// object are tolerated.  With al == nullptr the aliasing ops (fork, side, subset_side, recheck, "keep") are ignored.
 inline Result
-derive(shared_ptr<ProjDataInfo>& cur, const shared_ptr<Scanner>& sc, const json& hist, const json& final_trim, const json& arc_bin_size)
+derive(shared_ptr<ProjDataInfo>& cur, const shared_ptr<Scanner>& sc, const json& hist, const json& final_trim, const json& arc_bin_size, Alias* al)
 {
   cur = vg::make_pdi(sc, hist["src"]);
   if (!arc_bin_size.is_null())
     if (auto a = dynamic_cast<ProjDataInfoCylindricalArcCorr*>(cur.get()))
       a->set_tangential_sampling(arc_bin_size.get<float>());
-  for (const json& op : hist["ops"])
+  std::map<std::string, int> tof_saved_local;
+  std::map<std::string, int>& tof_saved = al ? al->tof_saved : tof_saved_local;
+  if (al)
     {
+      al->hist = &hist;
+      al->arc_bin_size = arc_bin_size;
+    }
+  const json& ops = hist["ops"];
+  for (std::size_t iop = 0; iop < ops.size(); ++iop)
+    {
+      const json& op = ops[iop];
       const std::string what = op["op"];
       ProjDataInfoCylindrical* cyl = dynamic_cast<ProjDataInfoCylindrical*>(cur.get());
+      // the ORIGINAL of a copying op stays alive and is re-checked later
+      const shared_ptr<ProjDataInfo> before = cur;
+      if (al && op.contains("keep") && (what == "clone" || what == "shared_clone" || what == "non_tof_clone" || what == "ssrb"))
+        {
+          Kept k;
+          k.id = op["keep"].get<std::string>();
+          k.how = cat("the original of the '", what, "' op");
+          k.at = iop;
+          k.obj = before;
+          al->kept.push_back(k);
+        }
       if (what == "use")
         warm(*cur, op["mask"].get<int>());
       else if (what == "clone")
@@ -276,55 +641,10 @@ derive(shared_ptr<ProjDataInfo>& cur, const shared_ptr<Scanner>& sc, const json&
         }
       else if (what == "perturb" || what == "restore")
         {
-          // "perturb": remember the present value of a parameter and set another one; "restore": set the remembered value.
-          // (the remembered values live in the ops themselves: perturb carries "delta", restore undoes the same delta)
+          // "perturb": set another value of a parameter; "restore": set the value of before (perturb carries "delta", restore
+          // undoes the same delta)
           const std::string par = op["par"];
-          const int sgn = what == "perturb" ? 1 : -1;
-          const int seg = std::max(cur->get_min_segment_num(), std::min(cur->get_max_segment_num(), op.value("seg", 0)));
-          const int d = sgn * op.value("delta", 1);
-          if (par == "min_axial")
-            cur->set_min_axial_pos_num(cur->get_min_axial_pos_num(seg) + d, seg);
-          else if (par == "max_axial")
-            cur->set_max_axial_pos_num(cur->get_max_axial_pos_num(seg) + d, seg);
-          else if (par == "num_axial")
-            { // (resets min_axial_pos_num to 0 in every segment, which is what the constructors and SSRB produce)
-              VectorWithOffset<int> n(cur->get_min_segment_num(), cur->get_max_segment_num());
-              for (int s = n.get_min_index(); s <= n.get_max_index(); ++s)
-                n[s] = cur->get_num_axial_poss(s) + (s == seg ? d : 0);
-              cur->set_num_axial_poss_per_segment(n);
-            }
-          else if (par == "min_tang")
-            cur->set_min_tangential_pos_num(cur->get_min_tangential_pos_num() + d);
-          else if (par == "max_tang")
-            cur->set_max_tangential_pos_num(cur->get_max_tangential_pos_num() + d);
-          else if (cyl && par == "min_ring_diff")
-            cyl->set_min_ring_difference(cyl->get_min_ring_difference(seg) + d, seg);
-          else if (cyl && par == "max_ring_diff")
-            cyl->set_max_ring_difference(cyl->get_max_ring_difference(seg) + d, seg);
-          else if (cyl && par == "ring_spacing")
-            { // factor 2^d: exactly invertible in float
-              cyl->set_ring_spacing(std::ldexp(cyl->ProjDataInfoCylindrical::get_ring_spacing(), d));
-            }
-          else if (cyl && par == "az_sampling" && !dynamic_cast<ProjDataInfoGeneric*>(cur.get()))
-            cyl->set_azimuthal_angle_sampling(std::ldexp(cyl->ProjDataInfoCylindrical::get_azimuthal_angle_sampling(), d));
-          else if (cyl && par == "az_offset" && !dynamic_cast<ProjDataInfoGeneric*>(cur.get()))
-            { // (+-0.25 rad, then the value the constructor documents is set again: float addition is not exactly invertible)
-              if (sgn > 0)
-                cyl->set_azimuthal_angle_offset(cyl->ProjDataInfoCylindrical::get_azimuthal_angle_offset() + 0.25F * d);
-              else
-                cyl->set_azimuthal_angle_offset(expected_azimuthal_offset(*sc, cur->get_num_views()));
-            }
-          else if (par == "tang_sampling")
-            {
-              if (auto a = dynamic_cast<ProjDataInfoCylindricalArcCorr*>(cur.get()))
-                a->set_tangential_sampling(std::ldexp(a->get_tangential_sampling(), d));
-            }
-          else if (par == "tof_mash")
-            { // perturb: another legal factor ("f"), restore: the factor of before ("f0")
-              ProjDataInfo& p = *cur;
-              const int f = what == "perturb" ? op["f"].get<int>() : op["f0"].get<int>();
-              with_tof_tables_allowed_to_shrink([&]() { p.set_tof_mash_factor(f); });
-            }
+          apply_perturbation(*cur, *sc, op, what == "perturb" ? 1 : -1, tof_saved);
           // the object is used in its intermediate state
           const int mask = op.value("use", 0);
           if (mask && what == "perturb")
@@ -351,6 +671,112 @@ derive(shared_ptr<ProjDataInfo>& cur, const shared_ptr<Scanner>& sc, const json&
                   stats().count("history: intermediate (perturbed) objects that STIR rejects when used");
                 }
             }
+        }
+      else if (what == "fork")
+        {
+          if (!al)
+            continue;
+          const std::string how = op.value("how", std::string("clone"));
+          Kept k;
+          k.id = op.value("id", std::string("?"));
+          k.at = iop;
+          if (how == "subset")
+            {
+              if (!al->opts.coords)
+                continue;
+              k.views = subset_views(op, cur->get_num_views());
+              k.obj.reset(new ProjDataInfoSubsetByView(cur, k.views));
+              k.subset = true;
+              k.how = "a ProjDataInfoSubsetByView of the current object";
+              use_subset(*k.obj);
+            }
+          else
+            {
+              k.obj = make_copy(cur, how, op, *al);
+              k.non_tof = how == "non_tof_clone";
+              k.how = cat("a copy (", how, ") of the current object, which was changed and used afterwards");
+              if (op.value("use", 0))
+                warm(*k.obj, op["use"].get<int>());
+            }
+          al->kept.push_back(k);
+        }
+      else if (what == "side")
+        {
+          if (!al)
+            continue;
+          // A = cur, B = copy of A [, C = copy of B, kept]; B gets another value of one parameter (never restored) and is used
+          shared_ptr<ProjDataInfo> B = make_copy(cur, op.value("how", std::string("clone")), op, *al);
+          if (op.contains("id"))
+            {
+              Kept k;
+              k.id = op["id"].get<std::string>();
+              k.at = iop;
+              k.obj = make_copy(B, op.value("how2", std::string("clone")), op, *al);
+              k.how = cat("a copy (", op.value("how2", std::string("clone")), ") of a copy (", op.value("how", std::string("clone")),
+                          ") of the current object; the middle copy was changed (", op.value("par", std::string("?")), ") and used afterwards");
+              if (op.value("use2", 0))
+                warm(*k.obj, op["use2"].get<int>());
+              al->kept.push_back(k);
+            }
+          apply_perturbation(*B, *sc, op, 1, tof_saved_local);
+          try
+            {
+              warm(*B, op.value("use", 31));
+              stats().count("aliasing: changed side copies used");
+            }
+          catch (const std::exception&)
+            {
+              stats().count("aliasing: changed side copies that STIR rejects when used");
+            }
+          if (op.value("hold", false))
+            al->held.push_back(B);
+        }
+      else if (what == "subset_side")
+        {
+          if (!al || !al->opts.coords)
+            continue;
+          Kept k;
+          k.id = op.value("id", std::string("?"));
+          k.at = iop;
+          k.views = subset_views(op, cur->get_num_views());
+          k.obj.reset(new ProjDataInfoSubsetByView(cur, k.views));
+          k.subset = true;
+          k.how = cat("a ProjDataInfoSubsetByView of the current object; its clone was changed (", op.value("par", std::string("?")), ") and used afterwards");
+          use_subset(*k.obj);
+          shared_ptr<ProjDataInfo> sub2 = op.value("how", std::string("clone")) == "copy" ? copy_construct(*k.obj) : shared_ptr<ProjDataInfo>(k.obj->clone());
+          apply_perturbation(*sub2, *sc, op, 1, tof_saved_local);
+          try
+            {
+              use_subset(*sub2);
+              stats().count("aliasing: changed clones of a subset used");
+            }
+          catch (const std::exception&)
+            {
+              stats().count("aliasing: changed clones of a subset that STIR rejects when used");
+            }
+          if (op.value("hold", false))
+            al->held.push_back(sub2);
+          al->kept.push_back(k);
+        }
+      else if (what == "recheck")
+        {
+          if (!al)
+            continue;
+          const std::string id = op.value("id", std::string("cur"));
+          if (id == "cur")
+            {
+              shared_ptr<ProjDataInfo> twin = build_twin(*al, iop);
+              const Result r = diff_twin(*cur, *twin, al->light);
+              stats().count("aliasing: re-checks of the current object after a side copy of it was changed and used");
+              if (r.failed())
+                return Result::fail(cat("ALIASING: the current object (after ", iop, " ops of the history) no longer answers like a fresh twin of its own settings after a copy "
+                                        "of it was changed and used :: ",
+                                        r.msg));
+            }
+          else
+            for (Kept& k : al->kept)
+              if (k.id == id)
+                VH_TRY(recheck_kept(*al, k, cat("after ", iop, " ops of the history"), true));
         }
       else
         return Result::fail("history: unknown op " + what);
@@ -433,10 +859,209 @@ full_max_rd(int span, int J)
   return (span % 2 == 1 ? (span - 1) / 2 : span / 2) + J * span;
 }
 
-//! history for the final sampling F (a vg::gen_pdi spec) on scanner sc; json() = none possible
-inline json
-gen_history(Src& s, const shared_ptr<Scanner>& sc, const json& F)
+// ---- generator of the aliasing ops (a pass over the ops of a generated history) --------------------------------------------------
+// Inserted blocks (each at a point where no perturbation of the current object is pending):
+//   beta   fork K (clone | shared_clone | copy | assign | non_tof_clone | subset); perturb the CURRENT object and use it; re-check K;
+//          restore [; re-check K]                                       "the copy must be unaffected by later setters + uses on X"
+//   alpha  side: B = copy of the current object A [, C = copy of B, kept], B changed and used; re-check A [and C]
+//                                                                       "X must be unaffected by setters + uses on its copy", chains
+//   subset subset_side (C12 only): subset made and used, cloned, the clone changed and used; re-check the subset
+// and "keep" marks on the copying ops of the history itself (clone / shared_clone / non_tof_clone / ssrb): the original is re-checked
+// after the copy got the final parameters and was used.  Re-checks of kept objects are also inserted after the perturbations and
+// setters of the history itself.
+struct AliasGen
 {
+  bool cyl_geom = true, arc = false, with_subsets = false;
+  std::vector<int> tof_legal; //!< legal TOF mashing factors of the scanner (0 = non-TOF), empty: no TOF
+  json src, final_untrimmed;  //!< specs an "assign" target can be built from
+  int max_blocks = 3;
+};
+
+// ---- known finding H2 (C12) ----------------------------------------------------------------------------------------------------
+// ProjDataInfoSubsetByView has no copy constructor of its own: clone() ("virtual copy-constructor") copies the member
+// shared_ptr<ProjDataInfo> org_proj_data_info_sptr, so a subset and its clone refer to ONE original object.  The setters the class
+// overrides (reduce_segment_range, set_num_axial_poss_per_segment, set_min/max_axial_pos_num, set_num/min/max_tangential_pos_num)
+// forward to that object: called on the clone they change the coordinates the FIRST subset reports (get_m shifts by half an axial
+// sampling step after set_min_axial_pos_num on the clone; get_tantheta indexes the ring-difference tables out of range after
+// reduce_segment_range on the clone), while the first subset's own ranges are unchanged.  The op "subset_side" is therefore not
+// generated (counted as excluded:C12-H2) unless VERIF_NO_EXCLUDE is set; probe known/C12/H2_subset_clone_shares_original.json.
+// When the repair (copy constructor / assignment that clone the original) is committed: let subset_clone_excluded() return false.
+inline bool
+subset_clone_excluded()
+{
+  // the defect is repaired in /repo (regression input replays/C12/fixed_H2_subset_clone_shares_original.json): the exclusion is
+  // permanently off, clones of subsets are changed with setters like every other copy
+  return false;
+}
+
+//! signature of a case of the known finding H2, "" otherwise
+inline std::string
+known_signature_H2(const json& c)
+{
+  if (!subset_clone_excluded() || !c.contains("hist") || !c["hist"].is_object() || !c["hist"].contains("ops"))
+    return "";
+  for (const json& op : c["hist"]["ops"])
+    if (op.value("op", std::string()) == "subset_side")
+      return "C12:H2:ProjDataInfoSubsetByView:clone-shares-original:setter-on-the-clone";
+  return "";
+}
+
+inline json
+add_alias_ops(Src& s, const json& ops_in, const AliasGen& g)
+{
+  json out = json::array();
+  int open = 0, nid = 0, blocks = 0;
+  std::vector<std::string> live;
+  auto new_id = [&]() { return cat("k", nid++); };
+  std::vector<std::string> pars = { "min_axial", "max_axial", "num_axial", "min_tang", "max_tang" };
+  if (g.cyl_geom)
+    for (const char* x : { "ring_spacing", "min_ring_diff", "max_ring_diff", "min_ring_diff", "max_ring_diff", "az_sampling", "az_offset" })
+      pars.push_back(x);
+  if (g.arc)
+    pars.push_back("tang_sampling");
+  if (g.tof_legal.size() > 1)
+    pars.push_back("tof_mash");
+  auto perturbation = [&](json base, bool side) {
+    std::vector<std::string> pp = pars;
+    if (side)
+      { // a side copy is never restored: reduce_segment_range is possible as well, and the setters that change the ring pairs count twice
+        pp.push_back("segs");
+        pp.push_back("min_axial");
+        pp.push_back("max_axial");
+        pp.push_back("num_axial");
+      }
+    base["par"] = s.pick(pp);
+    base["seg"] = int(s.range(-2, 2));
+    base["delta"] = int(s.pick(std::vector<int>{ 1, -1, 2, -2 }));
+    if (base["par"] == "tof_mash")
+      {
+        base["f"] = int(s.pick(g.tof_legal));
+        base["slot"] = cat("a", nid++);
+      }
+    return base;
+  };
+  auto copy_kind = [&](bool may_drop_tof) {
+    std::vector<std::string> k = { "clone", "clone", "shared_clone", "copy", "assign" };
+    if (may_drop_tof && g.tof_legal.size() > 1)
+      k.push_back("non_tof_clone");
+    return s.pick(k);
+  };
+  auto with_other = [&](json o) {
+    if (o.value("how", std::string()) == "assign" || o.value("how2", std::string()) == "assign")
+      o["other"] = s.coin() ? g.src : g.final_untrimmed;
+    return o;
+  };
+  auto use_mask = [&]() { return s.chance(3, 4) ? 31 : int(s.range(1, 31)); };
+  auto block = [&]() {
+    ++blocks;
+    int kind = int(s.pick(std::vector<int>{ 0, 0, 1, 1, 1, 2 }));
+    if (kind == 2 && !g.with_subsets)
+      kind = int(s.range(0, 1));
+    if (kind == 0)
+      { // beta
+        const std::string id = new_id();
+        json f = { { "op", "fork" }, { "id", id }, { "use", s.chance(1, 2) ? use_mask() : 0 } };
+        if (g.with_subsets && s.chance(1, 4))
+          {
+            f["how"] = "subset";
+            const int ns = int(s.range(1, 4));
+            f["num_subsets"] = ns;
+            f["subset"] = int(s.range(0, ns - 1));
+          }
+        else
+          f["how"] = copy_kind(true);
+        out.push_back(with_other(f));
+        live.push_back(id);
+        const int n = int(s.range(1, 2));
+        for (int i = 0; i < n; ++i)
+          {
+            json pj = perturbation({ { "op", "perturb" }, { "use", 31 } }, false);
+            out.push_back(pj);
+            out.push_back({ { "op", "recheck" }, { "id", id } });
+            pj["op"] = "restore";
+            pj["use"] = s.chance(1, 2) ? use_mask() : 0;
+            out.push_back(pj);
+          }
+        if (s.chance(1, 3))
+          out.push_back({ { "op", "recheck" }, { "id", id } });
+      }
+    else if (kind == 1)
+      { // alpha
+        json sd = perturbation({ { "op", "side" }, { "how", copy_kind(false) }, { "use", 31 }, { "hold", s.coin() } }, true);
+        std::string id;
+        if (s.chance(1, 2))
+          {
+            id = new_id();
+            sd["id"] = id;
+            sd["how2"] = copy_kind(false);
+            sd["use2"] = s.coin() ? use_mask() : 0;
+            live.push_back(id);
+          }
+        out.push_back(with_other(sd));
+        out.push_back({ { "op", "recheck" }, { "id", "cur" } });
+        if (!id.empty())
+          out.push_back({ { "op", "recheck" }, { "id", id } });
+      }
+    else
+      { // subset whose clone is changed (the setters ProjDataInfoSubsetByView overrides)
+        if (subset_clone_excluded())
+          {
+            stats().count("excluded:C12-H2 clone of a ProjDataInfoSubsetByView changed with a setter: not generated");
+            stats().excluded_known++;
+            return;
+          }
+        const std::string id = new_id();
+        const int ns = int(s.range(1, 4));
+        json sj = { { "op", "subset_side" }, { "id", id }, { "num_subsets", ns }, { "subset", int(s.range(0, ns - 1)) }, { "how", s.chance(1, 4) ? "copy" : "clone" },
+                    { "hold", s.coin() } };
+        sj["par"] = s.pick(std::vector<std::string>{ "segs", "min_axial", "max_axial", "num_axial", "min_tang", "max_tang" });
+        sj["seg"] = int(s.range(-2, 2));
+        sj["delta"] = int(s.pick(std::vector<int>{ 1, -1, 2, -2 }));
+        out.push_back(sj);
+        out.push_back({ { "op", "recheck" }, { "id", id } });
+        live.push_back(id);
+      }
+  };
+  for (std::size_t i = 0; i < ops_in.size(); ++i)
+    {
+      json o = ops_in[i];
+      const std::string what = o["op"];
+      if (open == 0 && i >= 1 && blocks < g.max_blocks && s.chance(1, 3))
+        block();
+      if ((what == "clone" || what == "shared_clone" || what == "non_tof_clone" || what == "ssrb") && s.chance(3, 4))
+        {
+          const std::string id = new_id();
+          o["keep"] = id;
+          live.push_back(id);
+        }
+      out.push_back(o);
+      if (what == "perturb")
+        ++open;
+      if (what == "restore")
+        --open;
+      if (!live.empty() && op_changes_settings(what) && what != "non_tof_clone" && what != "ssrb" && s.chance(1, 2))
+        out.push_back({ { "op", "recheck" }, { "id", s.pick(live) } });
+    }
+  if (blocks == 0 || (blocks < g.max_blocks && s.chance(1, 3)))
+    block();
+  return out;
+}
+
+//! history for the final sampling F (a vg::gen_pdi spec) on scanner sc; json() = none possible
+struct HistOpts
+{
+  bool with_subsets = false;            //!< the caller's property has the coordinates API (ProjDataInfoSubsetByView has only that)
+  int alias_num = 1, alias_den = 2;     //!< share of the histories that get aliasing ops
+  //! arc-corrected data: largest number of tangential positions for which every bin is inside the ring (get_LOR / get_tantheta assert
+  //! |s| < R, ProjDataInfoCylindrical.cxx get_LOR, ProjDataInfoCylindrical.inl get_tantheta).  The source of a history is re-checked
+  //! on all its bins when it is kept, so it has to stay inside that domain as well.  0: the source never has more positions than F
+  int arc_max_tang = 0;
+};
+inline json
+gen_history(Src& s, const shared_ptr<Scanner>& sc, const json& F, const HistOpts& ho = HistOpts())
+{
+  const bool with_subsets = ho.with_subsets;
+  const int alias_num = ho.alias_num, alias_den = ho.alias_den;
   const bool cyl_geom = sc->get_scanner_geometry() == "Cylindrical";
   const int ndet = sc->get_num_detectors_per_ring(), rings = sc->get_num_rings();
   const bool arc = F["arccorr"].get<bool>() && cyl_geom;
@@ -504,7 +1129,7 @@ gen_history(Src& s, const shared_ptr<Scanner>& sc, const json& F)
   int trim = 0;
   if (route != 0 && s.chance(1, 2))
     {
-      const int max_t = arc ? T + 6 : sc->get_max_num_non_arccorrected_bins();
+      const int max_t = arc ? std::min(T + 6, std::max(T, ho.arc_max_tang)) : sc->get_max_num_non_arccorrected_bins();
       const int src_t = int(s.range(1, std::max(1, max_t)));
       trim = src_t - T;
     }
@@ -688,6 +1313,21 @@ gen_history(Src& s, const shared_ptr<Scanner>& sc, const json& F)
   h["src"] = src;
   h["ops"] = ops;
   h["route"] = route == 0 ? "clone" : (route == 1 ? "ssrb" : "setters");
+  if (s.chance(alias_num, alias_den))
+    {
+      AliasGen g;
+      g.cyl_geom = cyl_geom;
+      g.arc = arc;
+      g.with_subsets = with_subsets;
+      if (Ntof > 0 && cyl_geom)
+        for (int m = 0; m <= Ntof; ++m)
+          if (m == 0 || (Ntof % m == 0 && (Ntof / m) % 2 == 1))
+            g.tof_legal.push_back(m);
+      g.src = src;
+      g.final_untrimmed = Fb;
+      h["ops"] = add_alias_ops(s, ops, g);
+      h["alias"] = true;
+    }
   return h;
 }
 
@@ -711,19 +1351,27 @@ count_history_classes(const json& hist)
         }
       else if (what == "perturb")
         stats().cls(cat("history: perturb ", op["par"].get<std::string>()));
+      else if (what == "fork")
+        stats().cls(cat("aliasing: copy kept (", op.value("how", std::string("clone")), "), original changed and used afterwards"));
+      else if (what == "side")
+        {
+          stats().cls(op.contains("id") ? "aliasing: chain A -> B -> C, B changed and used, A and C re-checked" : "aliasing: side copy changed and used, original re-checked");
+          stats().cls(cat("aliasing: side copy made by ", op.value("how", std::string("clone"))));
+          stats().cls(cat("aliasing: side copy changed through ", op.value("par", std::string("?"))));
+        }
+      else if (what == "subset_side")
+        stats().cls(cat("aliasing: subset cloned, clone changed through ", op.value("par", std::string("?")), " and used"));
+      else if (what == "recheck")
+        continue;
       else if (what != "use" && what != "restore")
         stats().cls("history: " + what);
+      if (op.contains("keep"))
+        stats().cls(cat("aliasing: original of a '", what, "' op kept and re-checked after the copy got the final parameters"));
     }
+  stats().cls(hist.value("alias", false) ? "history with aliasing ops" : "history without aliasing ops");
 }
 
 // ---- (iii) fresh-twin differential ------------------------------------------------------------------------------------------
-struct DiffOpts
-{
-  int ax_stride = 1, view_stride = 1, tang_stride = 1, ring_stride = 1, det_stride = 1;
-  bool all_pairs = true; // get_bin_for_det_pos_pair on all detector pairs x (all_pairs ? strided ring pairs : 4 ring pairs) x all TOF indices
-  bool coords = true;    // get_s/get_m/get_tantheta/get_phi/get_LOR/get_bin (C12); C01 is about the detector-pair and ring-pair maps only
-};
-
 inline std::string
 bs(const Bin& b)
 {
@@ -1044,12 +1692,21 @@ diff_twin(const ProjDataInfo& d, const ProjDataInfo& f, const DiffOpts& o)
 // object.  Every coordinate of a subset bin must be the fresh twin's coordinate of the original bin, and get_bin of the fresh twin's
 // LOR must be the subset's image of the fresh twin's answer whenever that view belongs to the subset.
 inline Result
-check_subset(const shared_ptr<ProjDataInfo>& d, const ProjDataInfo& f, const std::vector<int>& views, const DiffOpts& o)
+diff_subset(const ProjDataInfoSubsetByView& sub, const ProjDataInfo& f, const std::vector<int>& views, const DiffOpts& o)
 {
-  const ProjDataInfoSubsetByView sub(d, views);
   const bool generic = dynamic_cast<const ProjDataInfoGeneric*>(&f) != nullptr;
   VF_CHECK(sub.get_num_views() == int(views.size()), "subset has ", sub.get_num_views(), " views for ", views.size(), " requested");
   VF_CHECK(sub.get_original_view_nums() == views, "subset reports other original views");
+  // the ranges of the subset are those of the original (ProjDataInfoSubsetByView.cxx: "copy information across")
+  VF_CHECK(sub.get_min_segment_num() == f.get_min_segment_num() && sub.get_max_segment_num() == f.get_max_segment_num(), "subset: segment range ",
+           sub.get_min_segment_num(), "..", sub.get_max_segment_num(), " but the original's fresh twin has ", f.get_min_segment_num(), "..", f.get_max_segment_num());
+  // (the tangential RANGE is not compared: the constructor passes the NUMBER of tangential positions to ProjDataInfo, which centres the
+  //  range; for an original with a range that is not centred - only reachable with set_min/max_tangential_pos_num - the subset reports
+  //  the centred range of the same length.  The property is about the coordinates of the original's bins, which are compared below.)
+  VF_CHECK(sub.get_num_tangential_poss() == f.get_num_tangential_poss(), "subset: number of tangential positions differs from the original's fresh twin");
+  for (int seg = f.get_min_segment_num(); seg <= f.get_max_segment_num(); ++seg)
+    VF_CHECK(sub.get_min_axial_pos_num(seg) == f.get_min_axial_pos_num(seg) && sub.get_max_axial_pos_num(seg) == f.get_max_axial_pos_num(seg),
+             "subset: axial range of segment ", seg, " differs from the original's fresh twin");
   std::vector<int> back(f.get_num_views(), -1);
   for (std::size_t i = 0; i < views.size(); ++i)
     back[views[i]] = int(i);
@@ -1085,7 +1742,19 @@ check_subset(const shared_ptr<ProjDataInfo>& d, const ProjDataInfo& f, const std
             (void)generic;
           }
   stats().count("history: subset bins compared with the fresh twin", n);
+  {
+    const shared_ptr<const ProjDataInfo> org = sub.get_original_proj_data_info_sptr();
+    VF_CHECK(org && *org == f && f == *org, "subset: get_original_proj_data_info_sptr() is not equal (operator==) to a fresh twin of the object the subset was made of\n original: ",
+             org ? org->parameter_info() : std::string("(null)"), "\n fresh: ", f.parameter_info());
+  }
   return Result::pass();
+}
+
+inline Result
+check_subset(const shared_ptr<ProjDataInfo>& d, const ProjDataInfo& f, const std::vector<int>& views, const DiffOpts& o)
+{
+  const ProjDataInfoSubsetByView sub(d, views);
+  return diff_subset(sub, f, views, o);
 }
 
 } // namespace vh
